@@ -316,6 +316,8 @@ type exec struct {
 	final       bool // the next root is the final one of the history
 	prevReopen  bool // the previous op was a successful reopen
 	nontrivial  bool
+	modelDb     bool             // compare Database.Commit with the two-layer model
+	noModel     bool             // history too large for the model run: direct oracles only
 	kbuf        []byte           // ONE key buffer shared by all calls made in buffer-reuse mode
 	sharedKey   func(idx int) bool // does op idx pass its key through the shared buffer?
 	sharedOps   []int
@@ -326,6 +328,7 @@ func (h *H) newExec(class string) *exec {
 	e.diskdb, e.triedb, e.t = newTrie()
 	r := h.c.Rng
 	e.shouldFlush = func(int) bool { return r.Chance(20) }
+	e.modelDb = true
 	e.alterProof = func() bool { return r.Chance(30) }
 	e.askSpec = func() bool { return r.Chance(20) }
 	return e
@@ -358,6 +361,116 @@ func (e *exec) setContent(k, v []byte) {
 	} else {
 		e.content[string(k)] = v
 	}
+}
+
+// flushToDisk: trie.Database.Commit(root) — the memory layer is written to the disk store through a
+// write batch that is flushed every aquadb.IdealBatchSize bytes.  Compared with the two-layer model
+// (Trie/DbModel.v tdb_commit) on the dumped layers; then the committed root is re-read through a
+// FRESH trie.Database over the same disk store (direct oracle: a trie reopened from a committed root
+// reads back identically, from disk alone).
+func (e *exec) flushToDisk(idx int, root common.Hash) {
+	c := e.h.c
+	dumpDisk := func() (string, int) {
+		keys := e.diskdb.Keys()
+		parts := make([]string, 0, len(keys))
+		for _, k := range keys {
+			v, _ := e.diskdb.Get(k)
+			parts = append(parts, hx(k)+":"+strconv.Itoa(len(v)))
+		}
+		sort.Strings(parts)
+		return strings.Join(parts, ","), len(keys)
+	}
+	nodes, pre := trie.VerifDbDump(e.triedb)
+	var memArg, preArg, diskArg []string
+	reach := 0
+	for _, n := range nodes {
+		cs := make([]string, len(n.Children))
+		for i, ch := range n.Children {
+			cs[i] = vh.Hex(ch)
+		}
+		memArg = append(memArg, vh.Hex(n.Hash)+":"+vh.Hex(n.Blob)+":"+strings.Join(cs, "+"))
+		reach += len(n.Blob)
+	}
+	for _, p := range pre {
+		preArg = append(preArg, vh.Hex(p[0])+":"+vh.Hex(p[1]))
+	}
+	for _, k := range e.diskdb.Keys() {
+		v, _ := e.diskdb.Get(k)
+		diskArg = append(diskArg, vh.Hex(k)+":"+vh.Hex(v))
+	}
+	sort.Strings(diskArg)
+	join := func(l []string) string {
+		if len(l) == 0 {
+			return "-"
+		}
+		return strings.Join(l, ",")
+	}
+	var ferr error
+	if !e.guard(idx, "Database.Commit", false, func() { ferr = e.triedb.Commit(root, false) }) && ferr != nil {
+		c.Violate("database-commit-fails/"+sha16(e.prefix(idx)), "trie.Database.Commit fails on a memory database: "+ferr.Error(), e.replayObj(idx, nil))
+	}
+	e.flushed = append(e.flushed, idx)
+	c.Count("op/flush-to-disk")
+	if reach >= aquadb.IdealBatchSize {
+		c.Count("op/flush-to-disk/above-IdealBatchSize")
+	}
+	after, _ := trie.VerifDbDump(e.triedb)
+	mk := make([]string, len(after))
+	for i, n := range after {
+		mk[i] = hx(n.Hash)
+	}
+	sort.Strings(mk)
+	dk, _ := dumpDisk()
+	obs := "ok mem=" + strings.Join(mk, ",") + "|disk=" + dk
+	if e.modelDb {
+		line := fmt.Sprintf("dbcommit %d %s %s %s %s", aquadb.IdealBatchSize, vh.Hex(root[:]), join(memArg), join(preArg), join(diskArg))
+		cas := fmt.Sprintf("flush after op#%d of %s (memory layer %d nodes / %d bytes)", idx, clipStr(e.prefix(idx), 600), len(nodes), reach)
+		e.h.ask(line, func(m string) { e.h.corr("Database.Commit~tdb_commit", cas, clipStr(obs, 3000), clipStr(m, 3000)) })
+	}
+	e.checkDisk(idx, root)
+}
+
+// checkDisk re-reads a committed and flushed root through a fresh trie.Database over the same disk store.
+func (e *exec) checkDisk(idx int, root common.Hash) {
+	c := e.h.c
+	want, ok := e.snaps[root]
+	if !ok {
+		return
+	}
+	fail := func(what string, extra map[string]interface{}) {
+		extra["root"] = vh.Hex(root[:])
+		c.Violate("reopen-from-disk-loses-content/"+sha16(e.prefix(idx)), "after Database.Commit, a fresh trie.Database over the same disk store "+what, e.replayObj(idx, extra))
+	}
+	var t2 *trie.Trie
+	var err error
+	if p, pv := vh.CatchPanic(func() { t2, err = trie.New(root, trie.NewDatabase(e.diskdb)) }); p {
+		fail("panics in trie.New: "+fmt.Sprint(pv), map[string]interface{}{})
+		return
+	}
+	if err != nil {
+		if len(want) > 0 {
+			fail("cannot open the committed root: "+errName(err), map[string]interface{}{})
+		}
+		return
+	}
+	var ks, vs [][]byte
+	var ierr error
+	if p, pv := vh.CatchPanic(func() { ks, vs, ierr = iterAll(t2) }); p {
+		fail("panics while iterating: "+fmt.Sprint(pv), map[string]interface{}{})
+		return
+	}
+	got := map[string][]byte{}
+	for i := range ks {
+		got[string(ks[i])] = vs[i]
+	}
+	if ierr != nil || contentString(got) != contentString(want) {
+		fail("does not read back the committed content", map[string]interface{}{"iter_error": fmt.Sprint(ierr), "read_back_keys": len(got), "committed_keys": len(want)})
+		return
+	}
+	if rr := t2.Hash(); rr != root {
+		fail("re-hashes to a different root", map[string]interface{}{"rehash": vh.Hex(rr[:])})
+	}
+	c.Count("op/reopen-from-disk")
 }
 
 // afterRoot: bookkeeping and oracle (a) after Hash/Commit.
@@ -505,12 +618,7 @@ func (e *exec) step(tok string) {
 			e.afterRoot(idx, root, true)
 			if e.shouldFlush(idx) {
 				// flush the memory layer to disk; the model does not distinguish this
-				var ferr error
-				if !e.guard(idx, "Database.Commit", false, func() { ferr = e.triedb.Commit(root, false) }) && ferr != nil {
-					c.Violate("database-commit-fails/"+sha16(e.prefix(idx)), "trie.Database.Commit fails on a memory database: "+ferr.Error(), e.replayObj(idx, nil))
-				}
-				e.flushed = append(e.flushed, idx)
-				c.Count("op/flush-to-disk")
+				e.flushToDisk(idx, root)
 			}
 		}
 	case "r":
@@ -719,6 +827,9 @@ func (e *exec) finish(names map[byte]string) {
 		key = sha16(line) + sha16(line+"#")
 	}
 	c.Eval(e.class, key)
+	if e.noModel {
+		return
+	}
 	e.h.ask(line, func(m string) {
 		outs := strings.Split(m, ";")
 		if len(outs) != len(e.toks) {
@@ -1777,6 +1888,91 @@ func refItems(content map[string][]byte) []refKV {
 	return items
 }
 
+// bigCommitCases: size thresholds are where batching bugs live.  One trie.Database.Commit carrying
+// 0.5x, 1x-8 bytes, 1x+8 bytes and 2.5x aquadb.IdealBatchSize of node data (the constant is read from
+// the code), then the root is re-read through the same Database (memory layer now empty) and through a
+// FRESH Database over the same disk store; Database.Commit itself is compared with the two-layer model.
+func (h *H) bigCommitCases() {
+	limit := aquadb.IdealBatchSize
+	val := func(n int, b byte) []byte { return bytes.Repeat([]byte{b}, n) }
+	measure := func(keys [][]byte, vals [][]byte) int {
+		_, tdb, t := newTrie()
+		for i := range keys {
+			t.Update(keys[i], vals[i])
+		}
+		if _, err := t.Commit(nil); err != nil {
+			return -1
+		}
+		nodes, _ := trie.VerifDbDump(tdb)
+		sum := 0
+		for _, n := range nodes {
+			sum += len(n.Blob)
+		}
+		return sum
+	}
+	type tc struct {
+		name   string
+		target int
+		tune   bool
+		model  bool
+	}
+	for _, t := range []tc{{"0.5x", limit / 2, false, true}, {"1x-8", limit - 8, true, false}, {"1x+8", limit + 8, true, false}, {"2.5x", limit * 5 / 2, false, false}} {
+		n := t.target/1040 + 1
+		var keys, vals [][]byte
+		got := 0
+		for try := 0; try < 12; try++ {
+			keys = make([][]byte, n)
+			vals = make([][]byte, n)
+			for i := range keys {
+				keys[i] = crypto.Keccak256([]byte("big" + strconv.Itoa(i)))
+				vals[i] = val(1000, byte(0x40+i%64))
+			}
+			if t.tune {
+				vals[n-1] = val(100, 0x7e)
+			}
+			got = measure(keys, vals)
+			if !t.tune || got <= t.target-50 || n <= 2 {
+				break
+			}
+			n--
+		}
+		if t.tune {
+			for round := 0; round < 4 && got != t.target; round++ {
+				l := len(vals[n-1]) + (t.target - got)
+				if l < 1 {
+					l = 1
+				}
+				vals[n-1] = val(l, 0x7e)
+				got = measure(keys, vals)
+			}
+		}
+		side := "below"
+		if got >= limit {
+			side = "at-or-above"
+		}
+		e := h.newExec(fmt.Sprintf("directed/big-commit/%s/%s-IdealBatchSize(%+d)", t.name, side, got-limit))
+		e.shouldFlush = func(int) bool { return true }
+		e.alterProof = func() bool { return false }
+		e.askSpec = func() bool { return false }
+		e.noModel = !t.model
+		for i := range keys {
+			e.step("u:" + vh.Hex(keys[i]) + ":" + vh.Hex(vals[i]))
+		}
+		e.step("c")
+		if len(e.commitRoots) > 0 {
+			r := e.commitRoots[len(e.commitRoots)-1]
+			e.step("r:" + vh.Hex(r[:]))
+			e.step("i")
+			e.step("g:" + vh.Hex(keys[0]))
+			e.step("p:" + vh.Hex(keys[n-1]))
+		}
+		e.final = true
+		e.step("h")
+		e.nontrivial = true
+		e.finish(opNames)
+	}
+}
+
 // boundaryCases: directed contents (every run, every seed) whose non-root leaf, extension and
 // branch nodes have RLP encodings of exactly 31, 32 and 33 bytes: the inline-or-hash boundary.
 func (h *H) boundaryCases() {
@@ -2008,6 +2204,9 @@ func main() {
 
 	// 0b. directed contents on the 31/32/33-byte inline-or-hash boundary
 	h.boundaryCases()
+
+	// 0c. directed commits around the write-batch threshold aquadb.IdealBatchSize
+	h.bigCommitCases()
 
 	// 7. Keccak validation
 	for i, n := range []int{0, 1, 31, 32, 33, 55, 135, 136, 137, 272, 300, 532} {
